@@ -96,8 +96,24 @@ def run(tier, seed):
         if events:
             s = {k: events[0][k] for k in ("op", "id", "rel", "p", "level", "endom", "pairf") if k in events[0]}
             ev.add_samples([s], limit=1)
+    # the binary-field polynomials and binary curves of the pinned build (model/FbSpec: polynomial irreducible,
+    # generator on the curve, order prime and annihilating, Hasse interval, cofactor class, Koblitz flag, level),
+    # through the driver and trace specification of C16
+    from vlib.props import C16 as c16
+    X = ["-DVH_FBX"]
+    cf, fbs, ebs = c16.listing("std256", X)
+    want_e, want_f = c16.EXPECTED_EB["std256"], c16.EXPECTED_FB["std256"]
+    bcases = ["E%d eb_select" % i for i in sorted(set(want_e) | set(int(c.sel[1:]) for c in ebs))] + \
+             ["F%d fb_select" % i for i in sorted(set(want_f) | set(f[0] for f in fbs))]
+    conf = core.Conformance("C18", ev, wd)
+    conf.run("std256-binary", "std256", "fbx", c16.DRV, bcases, c16.SPEC, extra_cc=X, driver_args=["nofork"],
+             nontrivial=lambda e: e.get("op") in ("eb_select", "fb_select"), min_per_shard=1, heap="4g")
+    violations += conf.violations
+    if conf.infra:
+        raise core.InfraError("\n".join(conf.infra)[:2000])
     ev.cov["exhaustive"] = True
-    ev.cov["exhaustive_note"] = "every parameter id accepted by ep_param_set in the listed builds, every relation"
+    ev.cov["exhaustive_note"] = ("every parameter id accepted by ep_param_set in the listed builds, every relation; every "
+                                 "binary field polynomial and binary curve id of the pinned build")
     for rp, txt in violations:
         core.report_violation("C18", rp, txt)
     ev.violations = len(violations)
@@ -107,6 +123,8 @@ def run(tier, seed):
 
 def replay(path, seed):
     r = json.load(open(path))
+    if "driver" in r:                       # a binary-parameter event (generic conformance replay)
+        return core.replay_generic(path)
     wd = core.workdir("C18", "replay")
     ids, dumps, _ = dump(r["cfg"], wd)
     e = [dict(x) for x in dumps if x.get("id") == r["id"]]
